@@ -261,7 +261,12 @@ class AbstractPathModelDAG(ABC):
             self.solve_statistics["safe_sequences_time"] = time.perf_counter() - start_time
 
         if self.optimize_with_subpath_constraints_as_safe_sequences and len(self.subpath_constraints) > 0 and not self.is_solved():
-            if self.subpath_constraints_coverage == 1 and self.subpath_constraints_coverage_length in [1, None]:
+            # (under full *length* coverage an edge of length 0 need not lie on the covering path: such constraints are not safe sequences)
+            if self.subpath_constraints_coverage == 1 and (
+                self.subpath_constraints_coverage_length is None
+                or (self.subpath_constraints_coverage_length == 1
+                    and all(self.G[u][v].get(self.length_attr, 1) > 0 for constraint in self.subpath_constraints for (u, v) in constraint))
+            ):
                 start_time = time.perf_counter()
                 self.safe_lists += safetypathcovers.safe_sequences(
                     G=self.G,
